@@ -139,7 +139,9 @@ func (p *pki) constrain(r *RNG, dv string) {
 	case "ca.intermediateNotCA":
 		interCA = false
 	case "ca.intermediateNoBasicConstraints":
-		interMod = func(t *x509.Certificate) { t.IsCA, t.BasicConstraintsValid, t.KeyUsage = false, false, x509.KeyUsageCertSign }
+		interMod = func(t *x509.Certificate) {
+			t.IsCA, t.BasicConstraintsValid, t.KeyUsage = false, false, x509.KeyUsageCertSign
+		}
 	case "ca.pathLenExceeded":
 		rootMod = func(t *x509.Certificate) { t.MaxPathLen, t.MaxPathLenZero = 0, true }
 	case "ca.keyUsageNoCertSign":
